@@ -461,8 +461,14 @@ async fn run_spec(spec: &Spec) -> Out {
 		gate.notify_one();
 	}
 	// let callers run into the window, then release the slow close
+	let mut window_disc = None;
 	if spec.stall_send {
 		// the later operations are queued behind the stalled write by now; it fails
+		tokio::time::sleep(Duration::from_millis(2)).await;
+		// an observer that asks only now - the cause may be known already while the send task is still inside its write:
+		// whenever on_disconnect() resolves, is_connected() has to say the same
+		let c = client.clone();
+		window_disc = Some(tokio::spawn(async move { tokio::time::timeout(REQUEST_TIMEOUT + SLACK, c.on_disconnect()).await.ok().map(|e| (err_kind(&e), c.is_connected())) }));
 		tokio::time::sleep(Duration::from_millis(2)).await;
 		// the transport moves again (for this and every later write)
 		*srv.ctl.send_gate.lock().unwrap() = None;
@@ -571,6 +577,14 @@ async fn run_spec(spec: &Spec) -> Out {
 		};
 		if let Some(k) = &disc_cause {
 			check_cause("on_disconnect()", k, &mut out);
+		}
+		if let Some(t) = window_disc.take() {
+			if let Ok(Some((k, still_connected))) = t.await {
+				check_cause("on_disconnect() awaited during the stalled write", &k, &mut out);
+				if still_connected {
+					out.violations.push((format!("observers-disagree/{fclass}"), format!("[schedule: {sched}] on_disconnect() (asked while the send task was still inside its write) resolved with {k:?} while is_connected() still said true")));
+				}
+			}
 		}
 		match early_disc.await {
 			Ok(Some((k, still_connected))) => {
